@@ -5,100 +5,109 @@ Theorems are about `MxlVerif/Model/C16.lean` (linear mapper) and `MxlVerif/Model
 examples live here.
 -/
 import MxlVerif.Lemmas.C16
+import MxlVerif.Generated.C16Facts
 namespace Mxl.C16
 open Mxl.C05
 
-/-- the full statement "both mappers read a map in the same direction" is false of the code as it
-    stands (finding F-C16-1): with the 3-cycle `[2, 0, 1]` the linear mapper feeds product positions
-    0,1,2 from substrate positions 1,2,0, the documented reading (and `LabelMapper`'s) is 2,0,1 -/
-theorem C16_same_direction_fails :
-    ∃ (subs : List Slot) (lm : List Nat) (res : List Slot),
-      mapSubstratesToLabelmap subs lm = .ok res ∧ res ≠ documentedSources subs lm :=
-  ⟨[.pos "A" 0, .pos "A" 1, .pos "A" 2], [2, 0, 1], _, rfl, by decide⟩
+/-- **both mappers read a map in the same direction, the one documented**: `build_model`'s
+    `_map_labelmap_to_substrates` feeds product position `i` from (padded) substrate position
+    `labelmap[i]` — `documentedSources`, the reading of `LabelMapper` (`C05_position_map`) — and
+    accepts exactly the maps of the padded length whose indices are positions.  (Unconditional after
+    repo commit "fix: LinearLabelMapper.build_model reads a label map like LabelMapper ...";
+    before it this held for involutive maps only, finding F-C16-1.) -/
+theorem C16_same_direction (subs : List Slot) (lm : List Nat) (res : List Slot) :
+    mapLabelmapToSubstrates subs lm = .ok res ↔
+      lm.length = subs.length ∧ (∀ p ∈ lm, p < subs.length) ∧ res = documentedSources subs lm :=
+  mapLabelmapToSubstrates_iff subs lm res
 
-/-- for a map that is its own inverse the linear mapper feeds product position `i` from substrate
-    position `labelmap[i]`, as `LabelMapper` does (`C05_position_map`) -/
-theorem C16_same_direction_partial (subs : List Slot) (lm : List Nat)
-    (h : InvolutiveMap subs.length lm) :
-    mapSubstratesToLabelmap subs lm = .ok (documentedSources subs lm) :=
-  mapSubstratesToLabelmap_involutive subs lm h
+/-- non-vacuity, on the former witness of F-C16-1: the 3-cycle `[2, 0, 1]` feeds product positions
+    0,1,2 from substrate positions 2,0,1; the helper `_map_substrates_to_labelmap`, which a unit test
+    pins and `build_model` no longer calls, gives 1,2,0 -/
+example :
+    mapLabelmapToSubstrates [.pos "A" 0, .pos "A" 1, .pos "A" 2] [2, 0, 1]
+        = .ok [.pos "A" 2, .pos "A" 0, .pos "A" 1] ∧
+      mapSubstratesToLabelmap [.pos "A" 0, .pos "A" 1, .pos "A" 2] [2, 0, 1]
+        = .ok [.pos "A" 1, .pos "A" 2, .pos "A" 0] := ⟨rfl, rfl⟩
 
-/-- non-vacuity: the triose-phosphate-isomerase map of the documentation is involutive, so is a
-    merge map that swaps two one-carbon substrates -/
-example : InvolutiveMap 3 [2, 1, 0] ∧ InvolutiveMap 2 [1, 0] := by decide
-
-/-- what the linear mapper does with any permutation map: substrate position `j` goes to product
-    position `labelmap[j]`; every (padded) substrate position is used exactly once -/
+/-- what the pinned helper `_map_substrates_to_labelmap` does with any permutation map: substrate
+    position `j` goes to product position `labelmap[j]` (the inverse reading); it agrees with the
+    documented reading exactly when the map is its own inverse -/
 theorem C16_linear_reading (subs : List Slot) (lm : List Nat) (h : PermMap subs.length lm) :
     ∃ res, mapSubstratesToLabelmap subs lm = .ok res ∧ res.Perm subs ∧
-      ∀ j, j < subs.length → res[lm.getD j 0]? = subs[j]? := by
+      (∀ j, j < subs.length → res[lm.getD j 0]? = subs[j]?) ∧
+      (InvolutiveMap subs.length lm → res = documentedSources subs lm) := by
   obtain ⟨res, hok, _, hj⟩ := mapSubstratesToLabelmap_perm subs lm h
-  exact ⟨res, hok, mapSubstratesToLabelmap_perm_count subs lm h hok, hj⟩
+  refine ⟨res, hok, mapSubstratesToLabelmap_perm_count subs lm h hok, hj, ?_⟩
+  intro hinv
+  have := mapSubstratesToLabelmap_involutive subs lm hinv
+  rw [hok] at this
+  cases this; rfl
 
 /-- the per-position reactions of one base reaction (all of whose compounds carry labels): the
-    padded positions are paired with the sources chosen by `_map_substrates_to_labelmap`; a map
+    padded positions are paired with the sources chosen by `_map_labelmap_to_substrates`; a map
     of the wrong length is rejected with `ValueError` -/
 theorem C16_linear_reactions (lv : List (Name × Nat)) (r : BRxn) (lm : List Nat)
     (baseRxns : List (Name × List (Name × Int))) (hlk : baseRxns.lookup r.name = some r.stoich)
     (hlab : ∀ c ∈ subsOf r ++ prodsOf r, (lv.lookup c).isSome) :
     linRxnsOf (isosOf lv) baseRxns r.name lm =
       if lm.length < max (nSub lv r) (nProd lv r) then .error .valueError
-      else (mapSubstratesToLabelmap (paddedSubs lv r) lm).map
+      else (mapLabelmapToSubstrates (paddedSubs lv r) lm).map
         (fun res => slotRxns r.name 0 res (paddedProds lv r)) :=
   linRxnsOf_eq lv r lm baseRxns hlk hlab
 
-/-- **label flux per position** (mass-action rate, distinct labelled occurrences, non-zero pools):
-    in the isotopomer model the rates of the reactions whose substrate pattern is labelled at padded
-    substrate position `l` add up to (enrichment of that position) × (base flux at the totals) —
-    the rate `_relative_label_flux(enrichment, flux)` the linear model gives a per-position reaction
-    reading position `l` -/
-theorem C16_position_flux_partial {lv : List (Name × Nat)} {r : BRxn} {lm : List Nat}
+/-- **label flux per position** (mass-action rate — a compound may take part more than once —,
+    non-zero substrate pools): in the isotopomer model the rates of the reactions whose substrate
+    pattern is labelled at padded substrate position `l` add up to (enrichment of that position) ×
+    (base flux at the totals) — the rate `_relative_label_flux(enrichment, flux)` the linear model
+    gives a per-position reaction reading position `l` -/
+theorem C16_position_flux {lv : List (Name × Nat)} {r : BRxn} {lm : List Nat}
     {rs : List LRxn} (hok : isotopomerReactions lv r lm = .ok rs)
-    (hm : MassAction lv r) (hd : DistinctOccurrences lv r) (σ : LName → Rat)
+    (hm : MassAction lv r) (σ : LName → Rat)
     (hC : ∀ c ∈ subsOf r, labelsOf lv c > 0 → totalOf σ c (labelsOf lv c) ≠ 0)
     (l : Nat) (hl : l < max (nSub lv r) (nProd lv r)) :
     (rs.map fun rx => ind ((suffixOf rx).getD l false) * rx.rate σ).sum
       = LinRxn.rate (enrichOf lv σ) (fun _ => r.rate (totalsEnv lv σ))
           ⟨r.name, 0, (paddedSubs lv r).getD l Slot.ext, Slot.ext⟩ :=
-  position_flux hok hm hd σ hC l hl
+  position_flux_full hok hm σ hC l hl
 
-/-- **marginal** (mass-action rate, distinct labelled occurrences, non-zero substrate pools,
-    involutive map): with enrichments, pool sizes and flux taken from an isotopomer state, the
-    derivative the linear model's per-position reactions of one base reaction give to position
-    `(x, i)` is the derivative its isotopomer reactions give to the amount of `x` labelled at `i`,
-    divided by the pool of `x`.  (Both models' right-hand sides are sums of such contributions
-    over the base reactions.) -/
-theorem C16_marginal_partial (lv : List (Name × Nat)) (r : BRxn) (lm : List Nat)
+/-- **marginal** (mass-action rate, non-zero substrate pools, the map a permutation of the padded
+    positions — the maps for which a per-position model exists at all): with enrichments, pool sizes
+    and flux taken from an isotopomer state, the derivative the linear model's per-position
+    reactions of one base reaction give to position `(x, i)` is the derivative its isotopomer
+    reactions give to the amount of `x` labelled at `i`, divided by the pool of `x`.  (Both models'
+    right-hand sides are sums of such contributions over the base reactions.)  Unconditional in the
+    map's direction and in repeated compounds after the two repo fixes; before them the statement
+    needed `InvolutiveMap` (F-C16-1) and `DistinctOccurrences` (F-C05-1). -/
+theorem C16_marginal (lv : List (Name × Nat)) (r : BRxn) (lm : List Nat)
     (baseRxns : List (Name × List (Name × Int))) (rs : List LRxn) (lrs : List LinRxn)
     (hlk : baseRxns.lookup r.name = some r.stoich)
     (hlab : ∀ c ∈ subsOf r ++ prodsOf r, (lv.lookup c).isSome)
     (hiso : isotopomerReactions lv r lm = .ok rs)
     (hlin : linRxnsOf (isosOf lv) baseRxns r.name lm = .ok lrs)
-    (hm : MassAction lv r) (hd : DistinctOccurrences lv r)
-    (hinv : InvolutiveMap (max (nSub lv r) (nProd lv r)) lm) (σ : LName → Rat)
+    (hm : MassAction lv r)
+    (hpm : PermMap (max (nSub lv r) (nProd lv r)) lm) (σ : LName → Rat)
     (hC : ∀ c ∈ subsOf r, labelsOf lv c > 0 → totalOf σ c (labelsOf lv c) ≠ 0)
     (C : Name → Rat) (x : Name) (i : Nat) :
     linRhs lrs (enrichOf lv σ) (fun _ => r.rate (totalsEnv lv σ)) C (Slot.pos x i)
       = (1 / C x) * ((labelledAt x (labelsOf lv x) i).map (rhsOf rs σ)).sum := by
-  rw [linRxnsOf_eq lv r lm baseRxns hlk hlab, if_neg (by rw [hinv.1.length]; omega)] at hlin
-  have hinv' : InvolutiveMap (paddedSubs lv r).length lm := by rw [paddedSubs_length]; exact hinv
-  rw [mapSubstratesToLabelmap_involutive _ lm hinv'] at hlin
+  rw [linRxnsOf_eq lv r lm baseRxns hlk hlab, if_neg (by rw [hpm.length]; omega)] at hlin
+  have hpm' : PermMap (paddedSubs lv r).length lm := by rw [paddedSubs_length]; exact hpm
+  rw [mapLabelmapToSubstrates_perm _ lm hpm'] at hlin
   simp only [Except.map, Except.ok.injEq] at hlin
   subst hlin
-  exact marginal_full hiso hm hd hinv σ hC C x i
+  exact marginal_full hiso hm hpm σ hC C x i
 
-/-- without the involution hypothesis the statement is false of the code as it stands (finding
-    F-C16-1): A → B (three positions each, rate `k·A`) with the 3-cycle `[2, 0, 1]`; half of the
-    A pool labelled at position 0 only.  In the isotopomer model position 2 of B is fed by
-    position 1 of A (unlabelled): no label arrives; the linear model feeds it from position 0. -/
-theorem C16_marginal_fails :
+/-- the statement on the former witness of F-C16-1 (kernel-checked): A → B, three positions each,
+    rate `k·A`, the 3-cycle `[2, 0, 1]`, half of the A pool labelled at position 0 only; position 2
+    of B is fed by position 1 of A in both models -/
+example :
     ∃ (lv : List (Name × Nat)) (r : BRxn) (lm : List Nat) (rs : List LRxn) (lrs : List LinRxn)
-      (σ : LName → Rat) (C : Name → Rat) (x : Name) (i : Nat),
+      (σ : LName → Rat) (C : Name → Rat),
       isotopomerReactions lv r lm = .ok rs ∧
       linRxnsOf (isosOf lv) [(r.name, r.stoich)] r.name lm = .ok lrs ∧
-      MassAction lv r ∧ DistinctOccurrences lv r ∧ PermMap (max (nSub lv r) (nProd lv r)) lm ∧
-      linRhs lrs (enrichOf lv σ) (fun _ => r.rate (totalsEnv lv σ)) C (Slot.pos x i)
-        ≠ (1 / C x) * ((labelledAt x (labelsOf lv x) i).map (rhsOf rs σ)).sum := by
+      PermMap (max (nSub lv r) (nProd lv r)) lm ∧ ¬ InvolutiveMap (max (nSub lv r) (nProd lv r)) lm ∧
+      ∀ i ∈ [0, 1, 2], linRhs lrs (enrichOf lv σ) (fun _ => r.rate (totalsEnv lv σ)) C (Slot.pos "B" i)
+        = (1 / C "B") * ((labelledAt "B" (labelsOf lv "B") i).map (rhsOf rs σ)).sum := by
   refine ⟨[("A", 3), ("B", 3)],
     { name := "v", fn := listProd, args := ["k", "A"], stoich := [("A", -1), ("B", 1)] },
     [2, 0, 1], _, _,
@@ -106,24 +115,23 @@ theorem C16_marginal_fails :
       else if n = ⟨"A", some [false, false, false]⟩ then 1
       else if n = ⟨"B", some [false, false, false]⟩ then 2
       else if n = plain "k" then 1 else 0),
-    (fun _ => 2), "B", 2, rfl, rfl, ⟨fun _ => rfl, ?_⟩, by decide, by decide, ?_⟩
-  · intro a ha
-    by_cases e : a = "A"
-    · subst e; decide
-    · by_cases e2 : a = "B"
-      · subst e2; decide
-      · exfalso
-        have e1 : (a == "A") = false := by simpa using e
-        have e3 : (a == "B") = false := by simpa using e2
-        simp [labelsOf, List.lookup, e1, e3] at ha
-  · decide +kernel
+    (fun _ => 2), rfl, rfl, by decide, by decide, ?_⟩
+  decide +kernel
 
-/-- non-vacuity of `C16_marginal_partial`'s structural hypotheses: A + B → C with the swap map -/
-example : DistinctOccurrences [("A", 1), ("B", 1), ("C", 2)]
-      { name := "v", fn := listProd, args := ["k", "A", "B"], stoich := [("A", -1), ("B", -1), ("C", 1)] }
-    ∧ InvolutiveMap 2 [1, 0] := by decide
+/-- non-vacuity of `C16_marginal`'s structural hypotheses with a compound that takes part twice:
+    2 A → B with rate `k·A·A` and the non-involutive 3-cycle -/
+example : PermMap 3 [1, 2, 0] ∧ ¬ InvolutiveMap 3 [1, 2, 0] := by decide
 
-/-- **uniform enrichment** (any permutation map, either reading): if every position and the
+/-- the set of isotopomers `C16_marginal` sums over — those of `x` labelled at position `i` — is
+    what the public query `LabelMapper.get_isotopomers_of_at_position(x, i)` returns -/
+theorem C16_marginal_set_is_query (lv : List (Name × Nat)) (x : Name) (n i : Nat)
+    (h : lv.lookup x = some n) (hi : i < n) :
+    isotopomersAtPosition lv x [i] = .ok (labelledAt x n i) := by
+  have hn : n ≠ 0 := by omega
+  have hd : decide (n ≤ i) = false := by simp; omega
+  simp [isotopomersAtPosition, labelCount, h, bind, Except.bind, pure, Except.pure, hd, hn, labelledAt]
+
+/-- **uniform enrichment** (any permutation map): if every position and the
     external pool have enrichment `e`, one base reaction contributes
     (net stoichiometry of the compound) · e · flux / pool to each of the compound's positions … -/
 theorem C16_uniform_contribution (lv : List (Name × Nat)) (r : BRxn) (lm : List Nat)
@@ -137,13 +145,13 @@ theorem C16_uniform_contribution (lv : List (Name × Nat)) (r : BRxn) (lm : List
       = (netStoich r.stoich x : Rat) * (1 / C x) * (e * v r.name) := by
   rw [linRxnsOf_eq lv r lm baseRxns hlk hlab, if_neg (by rw [hperm.length]; omega)] at hlin
   have hperm' : PermMap (paddedSubs lv r).length lm := by rw [paddedSubs_length]; exact hperm
-  obtain ⟨res, hres, hrl, _⟩ := mapSubstratesToLabelmap_perm _ lm hperm'
-  rw [hres] at hlin
+  rw [mapLabelmapToSubstrates_perm _ lm hperm'] at hlin
   simp only [Except.map, Except.ok.injEq] at hlin
   subst hlin
-  rw [linRhs_slotRxns, sum_pairTerm_const e (v r.name) C (Slot.pos x i) (by simp) res
-    (paddedProds lv r) (by rw [hrl, paddedSubs_length, paddedProds_length])]
-  have hc := (mapSubstratesToLabelmap_perm_count _ lm hperm' hres).count_eq (Slot.pos x i)
+  rw [linRhs_slotRxns, sum_pairTerm_const e (v r.name) C (Slot.pos x i) (by simp)
+    (documentedSources (paddedSubs lv r) lm)
+    (paddedProds lv r) (by simp [documentedSources, hperm.length, paddedProds_length])]
+  have hc := (documentedSources_perm _ lm hperm').count_eq (Slot.pos x i)
   rw [hc]
   simp only [paddedSubs, paddedProds, count_append_ext, count_slotsFlat, hi, if_true, Slot.base]
   have := unpack_net r.stoich x
@@ -193,5 +201,15 @@ theorem C16_no_label_stays_none (lrs : List LinRxn) (v C : Name → Rat) (x : Sl
     rw [ih]
     simp only [LinRxn.rate]
     grind
+
+/-- the facts regenerated from the current `linear_label_map.py` by `translate/c16.py` are the ones
+    the model is written for: every mirrored function has its modelled statement shape (no decorator,
+    no further dataclass field — the mapper keeps no state between builds); the external pool is the
+    parameter `EXT` (`Slot.ext`), position variables are `compound__i` (`Slot.pos`), the default
+    external enrichment is 1, and `build_model` reads a map through `_map_labelmap_to_substrates`
+    (`mapLabelmapToSubstrates`, the documented direction) -/
+theorem C16_source_facts :
+    Mxl.C16.Gen.shapeOk = true ∧ Mxl.C16.Gen.ext = "EXT" ∧ Mxl.C16.Gen.sep = "__" ∧
+    Mxl.C16.Gen.extDefault = 1 ∧ Mxl.C16.Gen.documentedDirection = true := by decide
 
 end Mxl.C16
